@@ -66,11 +66,16 @@ def build_template(name, d):
         r2 = [r for r in w["reads"] if r.get("chr") != "chr1"]
         names2 = set(r["name"] for r in r2)
         r1 = [r for r in r1 if r["name"] not in names2]        # records of one read stay in one experiment
+        # E1 has one file, E2 two (its reads alternate between them): only E2 is grouped by file name automatically
+        names2s = sorted(names2)
+        half = set(names2s[::2])
         syn.write_bam(w, os.path.join(d, "e1.bam"), reads=r1, seqs=seqs)
-        syn.write_bam(w, os.path.join(d, "e2.bam"), reads=r2, seqs=seqs)
+        syn.write_bam(w, os.path.join(d, "e2.bam"), reads=[r for r in r2 if r["name"] in half], seqs=seqs)
+        syn.write_bam(w, os.path.join(d, "e2b.bam"), reads=[r for r in r2 if r["name"] not in half], seqs=seqs)
         import yaml
         with open(os.path.join(d, "in.yaml"), "w") as f:
-            yaml.safe_dump([{"data format": "bam"}, {"name": "E1", "long read files": ["e1.bam"]}, {"name": "E2", "long read files": ["e2.bam"]}], f)
+            yaml.safe_dump([{"data format": "bam"}, {"name": "E1", "long read files": ["e1.bam"]},
+                            {"name": "E2", "long read files": ["e2.bam", "e2b.bam"]}], f)
     if "STALE" in extra:
         # the earlier run in the same folder worked on other reads (every second record-name): its saved assignments are not this run's
         seqs = syn.genome_sequences(w)
@@ -365,7 +370,7 @@ def signature(status, detail):
 
 def run(ctx):
     quick = ctx.tier == "quick"
-    worlds_ = ["w1", "w2", "w3", "w10"] if quick else ["w1", "w2", "w3", "w4", "w5", "w6", "w7", "w8", "w9", "w10"]
+    worlds_ = ["w1", "w2", "w3", "w7", "w10"] if quick else ["w1", "w2", "w3", "w4", "w5", "w6", "w7", "w8", "w9", "w10"]
     if os.environ.get("VERIF_C07_WORLDS"):
         worlds_ = os.environ["VERIF_C07_WORLDS"].split(",")      # development aid: restrict the worlds
     total = 0
@@ -388,6 +393,8 @@ def run(ctx):
             for variant in ("before", "after"):
                 if quick and wname == "w3" and not (variant == "after" and phase_of("x:" + pts[i - 1][1]) in ("merge", "process-or-merge", "process")):
                     continue        # quick tier: the --keep_tmp world only in the phases where keeping intermediate files matters
+                if quick and wname == "w7" and (variant == "before" or i % 6):
+                    continue        # quick tier: the two-experiment world at every sixth mutation point
                 if wname == "w10" and (variant == "before" or (quick and i > 16)):
                     continue        # the stale-folder world: the window is the start of the run (until the old state is cleaned)
                 jobs.append((wname, [(i, variant)], None, ctx.scratch, wid, t0, chroms))
